@@ -549,8 +549,11 @@ def extra_checks(tier, seed):
                 "status": "proved" if good else "refuted", "backend": "enumeration(%s entries, exhaustive)" % (tbl.get("n") if isinstance(tbl, dict) else "?"),
                 "time": round(time.time() - t1, 2), "info": {"detail": str(tbl)[:400]},
                 "replay": {"reproduced": not good, "observed": tbl}})
+    if tier == "thorough":
+        res.append(Rp.native_crosscheck("C08/bounded/unserialize-envelope", _UNSER_HARNESS,
+                                        "20 codec results / exceptions / binary flags on the real Serializer with a stub codec"))
     if crashed:
-        return [{"name": "C08/bounded/hello-welcome-parse", "kind": "bounded", "status": "unknown", "bounded": True,
+        return res + [{"name": "C08/bounded/hello-welcome-parse", "kind": "bounded", "status": "unknown", "bounded": True,
                  "backend": "enumeration on the real code", "time": round(time.time() - t0, 2), "reason": "harness error: %s" % str(out)[:300],
                  "bound": "single replacements", "cases": 0}]
     by_cls = {"Hello": [], "Welcome": []}
